@@ -98,6 +98,19 @@ def make_subject(kind, seed):
         C[:, 0] = 1.0
         return BasisFunctionalData(b, C)
 
+    # size-ONE subjects (fast paths for a single observation / component / sampling point)
+    if kind == "irregular:1":
+        return irregular(1)
+    if kind == "irregular:1of4":
+        return irregular(4)[2]            # one curve taken out of a dataset: keeps its label 2
+    if kind == "basis:1":
+        return basisfd(1)
+    if kind == "dense2d:1":
+        return dense2(1, 4, 5)
+    if kind == "multivariate1c":
+        return MultivariateFunctionalData([dense1(5, 7)])
+    if kind == "multivariate1c:irregular":
+        return MultivariateFunctionalData([irregular(3)])
     if kind.startswith("dense1d:"):
         # size-threshold subjects `dense1d:<n_obs>x<n_points>` (fast paths that switch on above a size)
         n, m = (int(x) for x in kind.split(":")[1].split("x"))
@@ -254,12 +267,15 @@ def _class_of(kind):
     import FDApy.representation.functional_data as fd
 
     return {"dense1d": fd.DenseFunctionalData, "dense2d": fd.DenseFunctionalData, "irregular": fd.IrregularFunctionalData,
-            "basis": fd.BasisFunctionalData, "multivariate": fd.MultivariateFunctionalData, "multivariate3": fd.MultivariateFunctionalData}[kind.split(":")[0]]
+            "basis": fd.BasisFunctionalData, "multivariate": fd.MultivariateFunctionalData, "multivariate3": fd.MultivariateFunctionalData, "multivariate1c": fd.MultivariateFunctionalData}[kind.split(":")[0]]
 
 
 SIZE_THRESHOLDS = {"quick": [129, 257, 385, 513], "thorough": [33, 65, 129, 201, 257, 385, 513, 1025]}
 # the Gram matrix of many curves costs O(n^2) Python-level integrations: fewer "tall" sizes in the quick tier
 SIZE_THRESHOLDS_TALL = {"quick": [129, 385], "thorough": [33, 65, 129, 201, 257, 385, 513]}
+# exactly one observation / one component / one or two sampling points
+SIZE_ONE_KINDS = ["dense1d:1x7", "dense1d:3x1", "dense1d:3x2", "dense2d:1", "irregular:1", "irregular:1of4", "basis:1", "multivariate:1x7",
+                  "multivariate1c", "multivariate1c:irregular"]
 SIZED_METHODS = ["mean", "center", "covariance", "inner_product", "norm", "normalize", "standardize", "rescale", "noise_variance"]
 
 
@@ -364,7 +380,10 @@ def call_method(kind, seed, method, oi, subject=None, poison=None):
 # --------------------------------------------------------------------------
 
 def _heavy(c):
-    return "@" in c.get("est", "") or (":" in c.get("subject", "") and c.get("method") in ("inner_product", "covariance"))
+    if "@" in c.get("est", ""):
+        return True
+    sub = c.get("subject", "")
+    return ":" in sub and sub not in SIZE_ONE_KINDS and c.get("method") in ("inner_product", "covariance")
 
 
 def gen_cases(rng: Rng, tier):
@@ -397,6 +416,11 @@ def _gen_cases(rng: Rng, tier):
     for S in sorted(set(SIZE_THRESHOLDS[tier]) | set(SIZE_THRESHOLDS_TALL[tier])):
         for kind in ([f"dense1d:3x{S}"] if S in SIZE_THRESHOLDS[tier] else []) + ([f"dense1d:{S}x5"] if S in SIZE_THRESHOLDS_TALL[tier] else []):
             for m in SIZED_METHODS:
+                yield dict(kind="single", subject=kind, seed=seeds[0], method=m, opt=0)
+    # size-one datasets: every public method found by reflection, default options
+    for kind in SIZE_ONE_KINDS:
+        for m in public_methods(_class_of(kind)):
+            if m not in MUTATORS and m not in ("concatenate", "count", "index", "__getitem__", "copy"):
                 yield dict(kind="single", subject=kind, seed=seeds[0], method=m, opt=0)
     # pairs of consecutive calls
     by_kind = {}
@@ -440,7 +464,8 @@ def search_cases(rng, tier):
 
 
 def witness_cases():
-    return []
+    # open finding C16-multivariate-copy-shares-container (known_findings.d/C16.json)
+    return [dict(kind="single", subject="multivariate", seed=1, method="copy", opt=0)]
 
 
 # --------------------------------------------------------------------------
@@ -531,8 +556,105 @@ def _single(case):
                 viol.append(_viol("repeatable", entry, f"with read-only inputs the call raised ValueError: {str(e)[:80]}", ["second_call_differs"]))
         except Exception as e:  # noqa: BLE001
             viol.append(_viol("repeatable", entry, f"with read-only inputs the call raised {err_class(e)}: {str(e)[:80]}", ["second_call_differs"]))
+    # ---- (f) the result is the caller's: changing it in place must not reach the inputs
+    viol += _result_independence(kind, seed, method, oi, entry)
     out["viol"] = viol
     return out
+
+
+def _is_data(o):
+    from FDApy.representation.functional_data import FunctionalData, MultivariateFunctionalData
+
+    return isinstance(o, (FunctionalData, MultivariateFunctionalData))
+
+
+def _spoil_result(node, input_ids, log, depth=0):
+    """Change the CONTAINER cells of a result in place the way its owner may (list methods of a
+    multivariate object, `popitem` of dictionaries, overwriting a data frame).  Nodes that ARE input
+    nodes (shared on purpose: argvals objects, component objects) are left alone."""
+    import pandas as pd
+    from FDApy.representation.functional_data import MultivariateFunctionalData
+
+    if depth > 4 or id(node) in input_ids:
+        return
+    if isinstance(node, pd.DataFrame):
+        if len(node):
+            node.iloc[:, :] = -1
+            log.append("DataFrame[:] = -1")
+        return
+    if isinstance(node, (MultivariateFunctionalData, list)):
+        items = list(node.data) if isinstance(node, MultivariateFunctionalData) else list(node)
+        if len(node) > 0:
+            node.reverse()
+            node.pop()
+            log.append(f"{type(node).__name__}.reverse(); .pop()")
+        for it in items:
+            _spoil_result(it, input_ids, log, depth + 1)
+        return
+    if isinstance(node, tuple):
+        for it in node:
+            _spoil_result(it, input_ids, log, depth + 1)
+        return
+    if isinstance(node, dict) or (hasattr(node, "popitem") and hasattr(node, "items")):
+        items = list(node.values())
+        if len(node) > 0:
+            try:
+                node.popitem()
+                log.append(f"{type(node).__name__}.popitem()")
+            except Exception:  # noqa: BLE001
+                pass
+        for it in items:
+            _spoil_result(it, input_ids, log, depth + 1)
+        return
+    if _is_data(node):
+        for _, child in U.layout(node):
+            _spoil_result(child, input_ids, log, depth + 1)
+
+
+def _result_independence(kind, seed, method, oi, entry):
+    """Fresh inputs; call; (i) a result that is a data object must not BE one of the inputs; (ii) the
+    owner of the result changes its containers in place: the inputs must stay what they were, and
+    (iii) the same call then returns what it returned before."""
+    viol = []
+    subject = make_subject(kind, seed)
+    spec = ARGS.get((kind, method), [{}])[oi]
+    static, args, kwargs, extra = _resolve(kind, seed, subject, spec)
+    inputs = [("s", subject)] + [(f"a{i}", o) for i, (_, o) in enumerate(extra)]
+    fn = getattr(type(subject), method) if static else getattr(subject, method)
+    np.random.seed(12345)
+    try:
+        res = fn(*args, **kwargs)
+    except Exception:  # noqa: BLE001
+        return viol
+    before = [U.deep(o) for _, o in inputs]
+    r1 = _nocache(U.deep(res, skip_cache=False))
+    if _is_data(res) or isinstance(res, (list, dict)):
+        for nm, o in inputs:
+            if res is o:
+                viol.append(_viol("result_independent", entry, f"the result IS the input object `{nm}`: whatever its owner does to it (pop / append / reverse, setters) is done to the input",
+                                  ["result_is_input"]))
+    input_ids = {id(o) for nm, io in inputs for _, o in U.walk(io, nm)}
+    log = []
+    try:
+        _spoil_result(res, input_ids - {id(o) for _, o in inputs if o is res}, log)
+    except Exception as e:  # noqa: BLE001
+        log.append(f"(spoiling raised {err_class(e)})")
+    changed = []
+    for (nm, o), b in zip(inputs, before):
+        changed += [nm + p_ for p_ in U.diff_paths(b, U.deep(o))]
+    if changed:
+        viol.append(_viol("result_independent", entry, f"changing the RESULT in place ({'; '.join(log[:3])}) changed the inputs at {changed[:3]}", ["input_reached_through_result"]))
+        return viol
+    if log:
+        np.random.seed(12345)
+        try:
+            res2 = fn(*args, **kwargs)
+            d = U.diff_paths(r1, _nocache(U.deep(res2, skip_cache=False)))
+            if d:
+                viol.append(_viol("result_independent", entry, f"after its earlier result was changed in place ({'; '.join(log[:3])}) the same call returns something else at {d[:3]}", ["shared_result"]))
+        except Exception as e:  # noqa: BLE001
+            viol.append(_viol("result_independent", entry, f"after its earlier result was changed in place the same call raised {err_class(e)}: {str(e)[:80]}", ["shared_result"]))
+    return viol
 
 
 def _nocache(d):
@@ -1146,6 +1268,8 @@ def skeleton_of(case):
     if case.get("skeleton"):
         return case["skeleton"]
     base = case["subject"].split(":")[0]
+    if base == "multivariate1c":
+        return None  # the multivariate skeletons are written for two components
     return SKELETONS.get((base, case["method"], case["opt"])) or SKELETONS.get((base, case["method"], None))
 
 
